@@ -38,6 +38,11 @@ def spelling(rnd, v, nested=False):
         return "(" + spelling(rnd, v[:h], True) + "\n    " + spelling(rnd, v[h:], True) + ")"
     if c == 8:
         return "u" + q + esc + q
+    if c == 9 and len(esc) >= 2 and "{" not in esc and "}" not in esc and not nested:
+        # an f-string (no replacement field needed) continued with backslash-newline
+        h = 1 + rnd.randrange(len(esc) - 1)
+        if esc[h - 1] != BS and not (h >= 2 and esc[h - 2] == BS):
+            return ("f", "rf", "F")[rnd.randrange(3)] + q + esc[:h] + BS + "\n" + esc[h:] + q
     return q + esc + q
 
 
